@@ -31,6 +31,16 @@ pub trait Word:
     const BITS: usize;
 }
 
+#[cfg(prio_verif)]
+impl Word for u8 {
+    const BITS: usize = Self::BITS as usize;
+}
+
+#[cfg(prio_verif)]
+impl Word for u16 {
+    const BITS: usize = Self::BITS as usize;
+}
+
 impl Word for u32 {
     const BITS: usize = Self::BITS as usize;
 }
